@@ -120,6 +120,77 @@ theorem symmetric_map (g : Gen) (n r : ℕ) (us : List ℝ) (perm : List ℕ) (h
   funext u
   exact symMap_real u
 
+/-! ### `Database.generate_draws`: shape enforcement for ANY generator -/
+
+/-- **Only the shape `(n, R)` is accepted** — whatever the number of elements. -/
+theorem shape_enforced_iff (n R : ℕ) (dims : List ℕ) :
+    dimsAccepted n R dims = true ↔ dims = [n, R] :=
+  dimsAccepted_iff n R dims
+
+/-- **The right number of elements in the wrong layout is refused**: an array of any shape
+other than `(n, R)` with `n·R` elements — in particular the transposed one (`n ≠ R`), the
+one-dimensional one, and the ones with an extra axis of length 1. -/
+theorem same_count_wrong_layout_refused (n R : ℕ) :
+    (∀ dims : List ℕ, dimsCount dims = n * R → dims ≠ [n, R] → dimsAccepted n R dims = false) ∧
+    (n ≠ R → dimsCount [R, n] = n * R ∧ dimsAccepted n R [R, n] = false) ∧
+    (dimsCount [n * R] = n * R ∧ dimsAccepted n R [n * R] = false) ∧
+    (dimsCount [n, R, 1] = n * R ∧ dimsAccepted n R [n, R, 1] = false) ∧
+    (dimsCount [1, n, R] = n * R ∧ dimsAccepted n R [1, n, R] = false) := by
+  refine ⟨fun dims _ h => (dimsAccepted_false_iff n R dims).mpr h, ?_, ?_, ?_, ?_⟩
+  · intro h
+    refine ⟨by simp [dimsCount, Nat.mul_comm], (dimsAccepted_false_iff _ _ _).mpr ?_⟩
+    intro e
+    simp only [List.cons.injEq, and_true] at e
+    exact h e.1.symm
+  · exact ⟨by simp [dimsCount], (dimsAccepted_false_iff _ _ _).mpr (by simp)⟩
+  · exact ⟨by simp [dimsCount], (dimsAccepted_false_iff _ _ _).mpr (by simp)⟩
+  · exact ⟨by simp [dimsCount], (dimsAccepted_false_iff _ _ _).mpr (by simp)⟩
+
+/-- **`generate_draws` refuses as soon as one generator delivers another shape**: the error
+names the first variable (in the order of `names`) whose array is not `(n, R)`; the contents of
+the arrays play no role. -/
+theorem generate_draws_refuses_wrong_shape {α : Type} [NumOps α] (n R : ℕ) (vars : List (Delivered α))
+    (h : ∃ d ∈ vars, d.dims ≠ [n, R]) :
+    ∃ v, generateDraws n R vars = .error v ∧
+      (∃ d, vars[v]? = some d ∧ d.dims ≠ [n, R]) ∧
+      ∀ k, k < v → ∀ d', vars[k]? = some d' → d'.dims = [n, R] := by
+  cases hf : firstRefused n R 0 (vars.map (·.dims)) with
+  | none =>
+    exfalso
+    obtain ⟨d, hd, hne⟩ := h
+    exact hne ((firstRefused_none_iff n R 0 _).mp hf d.dims (List.mem_map_of_mem hd))
+  | some v =>
+    obtain ⟨_, ⟨d0, h2, h3⟩, h4⟩ := firstRefused_some n R 0 _ v hf
+    refine ⟨v, by simp [generateDraws, hf], ?_, ?_⟩
+    · simp only [Nat.sub_zero, List.getElem?_map, Option.map_eq_some_iff] at h2
+      obtain ⟨d, hd, rfl⟩ := h2
+      exact ⟨d, hd, h3⟩
+    · intro k hk d' hd'
+      exact h4 k (by omega) d'.dims (by simp [List.getElem?_map, hd'])
+
+/-- **What is stored is what the well-shaped generators delivered**: when every array has shape
+`(n, R)` the call succeeds, the table has shape observations × draws × variables, and
+`table[i][j][v]` is element `[i][j]` of the array of variable `v`. -/
+theorem generate_draws_table {α : Type} [NumOps α] (n R : ℕ) (vars : List (Delivered α))
+    (h : ∀ d ∈ vars, d.dims = [n, R]) :
+    ∃ t, generateDraws n R vars = .ok t ∧ t.length = n ∧
+      (∀ row ∈ t, row.length = R ∧ ∀ cell ∈ row, cell.length = vars.length) ∧
+      ∀ (i j v : ℕ) (d : Delivered α), i < n → j < R → vars[v]? = some d →
+        ((t[i]?.bind (·[j]?)).bind (·[v]?)) = some (elemAt R i j d.flat) := by
+  have hf : firstRefused n R 0 (vars.map (·.dims)) = none := by
+    rw [firstRefused_none_iff]
+    intro d hd
+    simp only [List.mem_map] at hd
+    obtain ⟨x, hx, rfl⟩ := hd
+    exact h x hx
+  refine ⟨drawsTable n R (vars.map (·.flat)), by simp [generateDraws, hf], drawsTable_length _ _ _, ?_, ?_⟩
+  · intro row hrow
+    have := drawsTable_shape n R (vars.map (·.flat)) row hrow
+    simpa using this
+  · intro i j v d hi hj hv
+    rw [drawsTable_row n R _ i hi]
+    simp [List.getElem?_map, List.getElem?_range hj, hv]
+
 /-! ### the normal quantile (Wichura's AS241) -/
 
 /-- **AS241 is odd**: `Φ⁻¹(1 − p) = −Φ⁻¹(p)` holds for the published algorithm, for every p. -/
@@ -239,6 +310,13 @@ example : InputsOK ⟨.mlhs, true, true, false⟩ 1 2 [0.25, 0.5] [1, 0] := by
   · intro h; cases h
 
 example : ((0.075 : ℝ) ≤ 0.3 ∧ (0.3 : ℝ) ≤ 0.45) ∨ (0.925 : ℝ) < 0.3 := by left; norm_num
+
+example : dimsCount [8, 5] = 5 * 8 ∧ dimsAccepted 5 8 [8, 5] = false ∧ dimsAccepted 5 8 [40] = false
+    ∧ dimsAccepted 5 8 [5, 8] = true := by decide
+
+example : (generateDraws 2 3 [⟨[2, 3], [1, 2, 3, 4, 5, 6]⟩, ⟨[3, 2], [1, 2, 3, 4, 5, 6]⟩]
+    : Except ℕ (List (List (List ℝ)))) = .error 1 := by
+  simp [generateDraws, firstRefused, dimsAccepted]
 
 example : Generated.drawCatalogue.length = 21 := by decide
 
